@@ -25,9 +25,9 @@ add("C03", "pbt", "property-based testing (proptest): independent encoder with p
     "An independent ETF writer emits every generated value in a generated mix of all admissible forms (small/large, legacy, text float, four atom tags incl. Latin-1, STRING_EXT, split lists, legacy/NEW_PORT identifier tags, LOCAL_EXT, COMPRESSED stored and deflate) with and without junk appended; the library's decode, decode_with_trailing, decode_raw_term and decode_with_atom_cache must return exactly that value / report the trailing bytes; a valid term nested up to 250 levels must decode whatever the same thread decoded (and rejected) before.",
     "Trusts refmodel's writer to emit only encodings erl_ext_dist permits (self-checked against refmodel's reader). Known open finding C03-F1 (maps with ==-equal keys).",
     "DESIGN.md §7 C03")
-add("C05", "pbt", "exhaustive enumeration of all chunkings of short streams + property-based testing over random streams through a custom chunking/Pending AsyncRead and AsyncWrite",
+add("C05", "pbt", "exhaustive enumeration of all chunkings of short streams + property-based testing over random streams through a custom chunking/Pending AsyncRead and AsyncWrite + generated connect/write/close/mode histories of the socket-bound FramedTransport over loopback streams",
     "Every way of cutting short framed streams into reads (all 2^(n-1)), and random message sequences x chunk patterns x Pending patterns x EOF positions x over-cap lengths, with framer and deframer built directly in the mode or switched to it by set_mode, driven by a manual poll loop; frames out must equal messages in, the streaming writer must equal the one-shot framer, over-cap lengths must be refused without a large allocation (scoped counting allocator).",
-    "No sockets or timers involved; the node's second copy of the read loop (receive_message_from_read_half) is exercised over TCP by C06/C19.",
+    "Framer and deframer: no sockets or timers involved (the FramedTransport campaign uses loopback streams and real time, with a 20 s cap per wait); the node's second copy of the read loop (receive_message_from_read_half) is exercised over TCP by C06/C19.",
     "DESIGN.md §7 C05")
 add("C08", "pbt", "property-based testing over the tag x arity grid + table-driven differential against the protocol's control-message table (independent copy)",
     "Tuples {Tag,e1..ek} for all tags 0..255 and arities 1..10 (biased to protocol tags at arity +-1, unlink ids over and beyond 64 bits, malformed inputs) must parse/serialise losslessly, to_term == into_term, survive the wire, and map to the variant/field the protocol table names; every table row built as a named variant must serialise to the protocol's tuple as seen by an independent reader.",
